@@ -325,7 +325,7 @@ fn intercepted_htlc_is_failed_back(htlc: &PendingAddHTLCInfo, height: u32) -> (k
     ensures
     kept <==> height as int + HTLC_FAIL_BACK_BUFFER < htlc.forward_info.outgoing_cltv_value,
  {
-        if height >= htlc.forward_info.outgoing_cltv_value - LATENCY_GRACE_PERIOD_BLOCKS { false } else { true }
+        if height >= htlc.forward_info.outgoing_cltv_value - HTLC_FAIL_BACK_BUFFER { false } else { true }
     }
 
 proof fn vac__intercepted_htlc_is_failed_back(htlc: &PendingAddHTLCInfo, height: u32) 
